@@ -36,6 +36,12 @@ class Ctx:
         self.assumptions = []
         self.actions_cov = {}
         self.findings = self._load_findings()
+        import glob
+        for old in glob.glob(os.path.join(VERIF, "replays", "%s_*.json" % pid)):
+            try:
+                os.remove(old)
+            except OSError:
+                pass
 
     # --- findings ---------------------------------------------------------------
     def _load_findings(self):
@@ -185,6 +191,11 @@ def main(pid, run, argv=None):
         ctx.write_evidence("machinery_error")
         return 2
     ctx.write_evidence("violations" if ctx.violations else "ok")
+    if ctx.violations:
+        import collections
+        cnt = collections.Counter(v["key"] for v in ctx.violations)
+        for k, n in cnt.most_common(40):
+            print("  violations: %4d  %s" % (n, k), flush=True)
     print("%s %s: states=%d transitions=%d traces=%d evaluations=%d distinct=%d known=%d violations=%d wall=%.1fs" % (
         pid, tier, ctx.states, ctx.transitions, ctx.traces, ctx.evaluations,
         len(ctx.distinct), len(ctx.known_hit), len(ctx.violations), time.time() - ctx.t0),
